@@ -365,3 +365,15 @@ pub fn expand(prog: &Program, kinds: Kinds) -> Option<(Program, usize, usize)> {
     *p.main_mut() = out_main;
     Some((p, ex.expanded, ex.nesting))
 }
+
+
+/// pure (label-free) constants and variables defined at the top level of the main file, evaluated
+pub fn pure_consts(prog: &Program) -> BTreeMap<String, Value> {
+    let mut ex = Expander::new(Kinds::ALL);
+    ex.collect(prog.main(), true);
+    ex.consts
+}
+
+pub fn eval_with(consts: &BTreeMap<String, Value>, e: &Expr) -> Option<Value> {
+    eval::eval(e, &mut PureEnv { consts }).ok()
+}
